@@ -1355,6 +1355,141 @@ def isnan(a):
     return math.isnan(a)
 
 
+def isclose(a, b, rtol=1e-5, atol=1e-8, equal_nan=False):
+    """|a - b| <= atol + rtol * |b| elementwise (NumPy's definition)."""
+    def one(x, y):
+        lim = atol + rtol * builtins.abs(y) if not (not isinstance(rtol, Sym) and rtol == 0) else atol
+        return builtins.abs(x - y) <= lim
+    if isinstance(a, ndarray) or isinstance(b, ndarray):
+        return _elementwise(asarray(a), b, one, bool_)
+    return one(a, b)
+
+
+def diff(a, n=1, axis=-1, prepend=None, append=None):
+    a = asarray(a)
+    if a.ndim != 1 or n != 1:
+        raise Unsupported("diff of a multi-dimensional array / n != 1")
+    vals = a._flat()
+    if prepend is not None:
+        vals = list(asarray(prepend)._flat() if isinstance(prepend, (list, tuple, ndarray)) else [prepend]) + vals
+    if append is not None:
+        vals = vals + list(asarray(append)._flat() if isinstance(append, (list, tuple, ndarray)) else [append])
+    out = [vals[i + 1] - vals[i] for i in range(len(vals) - 1)]
+    return ndarray._new(out, (len(out),), a.dtype if a.dtype.kind != 'b' else int64)
+
+
+def cumsum(a, axis=None):
+    a = asarray(a)
+    if a.ndim != 1:
+        raise Unsupported("cumsum of a multi-dimensional array")
+    out, acc = [], None
+    for v in a._flat():
+        acc = v if acc is None else acc + v
+        out.append(acc)
+    return ndarray._new(out, (len(out),), a.dtype)
+
+
+def cumprod(a, axis=None):
+    a = asarray(a)
+    out, acc = [], None
+    for v in a._flat():
+        acc = v if acc is None else acc * v
+        out.append(acc)
+    return ndarray._new(out, (len(out),), a.dtype)
+
+
+def append(a, values, axis=None):
+    return concatenate([asarray(a).ravel(), atleast_1d(asarray(values)).ravel()])
+
+
+def flip(a, axis=None):
+    a = asarray(a)
+    if a.ndim != 1:
+        raise Unsupported("flip of a multi-dimensional array")
+    return ndarray._new(list(reversed(a._flat())), a.shape, a.dtype)
+
+
+def tile(a, reps):
+    a = asarray(a)
+    if a.ndim > 1 or not isinstance(reps, builtins.int):
+        raise Unsupported("tile beyond 1-d")
+    vals = a._flat() * reps
+    return ndarray._new(vals, (len(vals),), a.dtype)
+
+
+def repeat(a, repeats, axis=None):
+    a = asarray(a)
+    vals = []
+    for v in a._flat():
+        vals.extend([v] * repeats.__index__())
+    return ndarray._new(vals, (len(vals),), a.dtype)
+
+
+def nonzero(a):
+    a = asarray(a)
+    if a.ndim != 1:
+        raise Unsupported("nonzero of a multi-dimensional array")
+    idx = [i for i, v in enumerate(a._flat()) if builtins.bool(v if isinstance(v, (builtins.bool, SymBool)) else v != 0)]
+    return (ndarray._new(idx, (len(idx),), int64),)
+
+
+def flatnonzero(a):
+    return nonzero(asarray(a).ravel())[0]
+
+
+def argsort(a, axis=-1, kind=None):
+    a = asarray(a)
+    if a.ndim != 1:
+        raise Unsupported("argsort of a multi-dimensional array")
+    vals = a._flat()
+    idx = sorted(range(len(vals)), key=lambda i: _SortKey(vals[i]))     # comparisons fork on symbolic values
+    return ndarray._new(idx, (len(idx),), int64)
+
+
+class _SortKey:
+    __slots__ = ('v',)
+
+    def __init__(self, v):
+        self.v = v
+
+    def __lt__(self, o):
+        return builtins.bool(self.v < o.v)
+
+
+def unique(a, return_counts=False):
+    a = asarray(a)
+    vals = [v.__index__() if isinstance(v, SymInt) else v for v in a._flat()]
+    if builtins.any(isinstance(v, Sym) for v in vals):
+        raise Unsupported("unique of symbolic reals")
+    u = sorted(set(vals))
+    out = ndarray._new(u, (len(u),), a.dtype)
+    if return_counts:
+        return out, ndarray._new([vals.count(x) for x in u], (len(u),), int64)
+    return out
+
+
+def bincount(a, minlength=0):
+    vals = [v.__index__() for v in asarray(a)._flat()]
+    n = builtins.max([minlength] + [v + 1 for v in vals])
+    return ndarray._new([vals.count(i) for i in range(n)], (n,), int64)
+
+
+def linspace(start, stop, num=50):
+    num = num.__index__()
+    if num == 1:
+        return array([start])
+    step = (stop - start) / (num - 1)
+    return array([start + i * step for i in range(num)])
+
+
+def floor(a):
+    return _map(a, lambda v: v.__floor__() if isinstance(v, Sym) else math.floor(v))
+
+
+def ceil(a):
+    return _map(a, lambda v: v.__ceil__() if isinstance(v, Sym) else math.ceil(v))
+
+
 def allclose(a, b, rtol=1e-5, atol=1e-8):
     d = abs(asarray(a) - asarray(b))
     lim = atol + rtol * abs(asarray(b))
